@@ -1004,6 +1004,18 @@ impl FromStr for Duration {
             .parse()
             .map_err(|e| TemporalError::range().with_message(format!("{e}")))?;
 
+        // A fraction has at most nine digits.
+        let fraction = match parse_record.time {
+            Some(TimeDurationRecord::Hours { fraction, .. })
+            | Some(TimeDurationRecord::Minutes { fraction, .. })
+            | Some(TimeDurationRecord::Seconds { fraction, .. }) => fraction,
+            None => None,
+        };
+        if fraction.is_some_and(|fraction| fraction.to_nanoseconds().is_none()) {
+            return Err(TemporalError::range()
+                .with_message("Duration fraction cannot have more than nine digits."));
+        }
+
         let (hours, minutes, seconds, millis, micros, nanos) = match parse_record.time {
             Some(TimeDurationRecord::Hours { hours, fraction }) => {
                 let unadjusted_fraction =
